@@ -188,7 +188,14 @@ pub fn to_lib_app(a: &RAttr) -> Result<StunAttribute, String> {
 
 pub fn to_lib_msg(m: &RMsg) -> Result<StunMessage, String> {
     let method = MessageMethod::try_from(m.method).map_err(|e| format!("method: {}", e))?;
-    let mut b = StunMessageBuilder::new(method, class_of(m.class)).with_transaction_id(TransactionId::from(m.tid));
+    let mut b = StunMessageBuilder::new(method, class_of(m.class));
+    if m.tid[11] & 1 == 1 {
+        // a template builder whose id is overridden: the id given last is the message's
+        let mut other = m.tid;
+        other[0] ^= 0x5A;
+        b = b.with_transaction_id(TransactionId::from(other));
+    }
+    b = b.with_transaction_id(TransactionId::from(m.tid));
     for a in &m.attrs {
         b = b.with_attribute(to_lib(a)?);
     }
